@@ -381,7 +381,7 @@ func c18Generate(r *core.Run) []c18Config {
 		add(bs, r.Pick(6, 24))
 	}
 	// the sample that also goes through the client HTTP handler
-	nHTTP := r.Pick(12, 150)
+	nHTTP := r.Pick(12, 90)
 	for _, i := range rng.Perm(len(cfgs))[:nHTTP] {
 		cfgs[i].HTTP = true
 	}
